@@ -29,6 +29,12 @@ inductive Draw where
   | accept (pAcc : F) (r : Rat)         -- `_p_accept_default()` and the `random()` it is compared with in `_consider`
   | part (pos : Pos) (velo : List F)    -- `Particle._move_part(pos, velo)`: the float velocity is an oracle, the position is checked
   | spiral (v : List F)                 -- the float vector `A + B` of `Spiral.move_spiral` before clip and cast
+  | sorted (perm : List Nat)            -- `sort_pop_best_score`: member indices by descending `score_current` (numpy's argsort)
+  | int (k : Nat)                       -- an integer draw: `random.randint`, `random.choice` over a list of indices
+  | npunif (x : Rat)                    -- `np.random.uniform(low=0, high=total_rate)`
+  | choice (c : List Nat)               -- `discrete_recombination`: per coordinate, which parent it comes from
+  | mutant (v : List F)                 -- `DifferentialEvolutionOptimizer.mutation()`: the float mutant vector
+  | parents (idx : List Nat)            -- `GeneticAlgorithmOptimizer._crossover`: indices of the selected parents
 deriving Repr, DecidableEq, Inhabited
 
 abbrev Tape := List Draw
